@@ -34,11 +34,14 @@ Definition images_F := images float 0 1 PrimFloat.add PrimFloat.mul PrimFloat.di
 Definition truncate_F := @truncate float PrimFloat.ltb (list float).
 (* the spherical row of the model and, per reference point, the norm of the tangent vector before normalisation *)
 Definition sph_case (maxsize m d : nat) (w : list float) (xs : list (list float)) (q : list float) (ys plan : list (list float)) :=
+  let img := images_F m d q (combine (map snd (truncate_F maxsize (combine w xs))) plan) in
   (map fz (lot_pipeline_sph_F maxsize m d w xs q ys (fun _ => plan)),
-   map fz (tangent_norms_F m d (images_F m d q (combine (map snd (truncate_F maxsize (combine w xs))) plan)) ys)).
+   map2 (fun n c => [fz n; fz c; fz (tie_dist_F c)]) (tangent_norms_F m d img ys) (cosines_F m d img ys)).
 Definition sink_images_F := sink_images float 0 PrimFloat.add PrimFloat.mul PrimFloat.eqb.
 Definition sink_case (m d : nat) (us vs : list (list float)) (K xs ys : list (list float)) :=
-  map2 (fun u v => (map fz (sinkhorn_row_F m d u K v xs ys), map fz (tangent_norms_F m d (sink_images_F d u K v xs) ys))) us vs.
+  map2 (fun u v => let img := sink_images_F d u K v xs in
+                   (map fz (sinkhorn_row_F m d u K v xs ys),
+                    map2 (fun n c => [fz n; fz c; fz (tie_dist_F c)]) (tangent_norms_F m d img ys) (cosines_F m d img ys))) us vs.
 Definition approx_case (pw : float -> float) (d : nat) (V comps : list (list float)) (svs : list float)
            (X : list (list (nat * float))) := map (map fz) (approx_transform_F pw d V comps svs X).
 """
@@ -455,21 +458,30 @@ def child_and_model(key, items, gate_future):
 SQRT_EXEMPT = [0]
 
 
-def sph_compare(impl, model, norms, d, signed_sqrt):
-    """Per reference point (block of d entries).  A block whose tangent vector (before normalisation) is shorter than
-    1e-6 in the model while its model output is not small is an antipodal image: the direction of the tangent
-    vector is rounding noise there; skipped (counted).  Otherwise |impl - model| <= 1e-9, or — after the kernel's
-    signed square root, which turns an absolute error e near 0 into sqrt(e) — equality of the signed squares to 1e-13.
-    Returns (ok, worst deviation, blocks skipped)."""
+F32_TIES = [0]
+
+
+def sph_compare(impl, model, info, d, signed_sqrt):
+    """Per reference point (block of d entries); info[j] = (tangent norm before normalisation, cosine distance, its
+    distance to the nearest float32 rounding boundary), all from the model.  A block whose tangent vector is shorter
+    than 1e-6 while its model output is not small is an antipodal image: the direction of the tangent vector is
+    rounding noise there; skipped (counted).  A block whose cosine distance (> 1e-6) lies within 1e-13 of a float32
+    rounding boundary is skipped (counted): a last-bit difference flips the float32 store.  Otherwise
+    |impl - model| <= 1e-9, or — after the kernel's signed square root, which turns an absolute error e near 0 into
+    sqrt(e) — equality of the signed squares to 1e-13.  Returns (ok, worst deviation, antipodal blocks skipped)."""
     if len(impl) != len(model):
         return False, float("inf"), 0
     worst, skipped = 0.0, 0
-    for j in range(len(norms)):
+    for j in range(len(info)):
         a, b = impl[j * d:(j + 1) * d], model[j * d:(j + 1) * d]
+        norm_j, cos_j, tie_j = (from_fz(t) for t in info[j])
         if any(x != x for x in a) or any(x != x for x in b):
             return False, float("nan"), skipped
-        if norms[j] < 1e-6 and max(abs(x) for x in b) > 1e-3:
+        if norm_j < 1e-6 and max(abs(x) for x in b) > 1e-3:
             skipped += 1
+            continue
+        if abs(cos_j) > 1e-6 and tie_j < 1e-13:
+            F32_TIES[0] += 1
             continue
         for x, y in zip(a, b):
             dev = abs(x - y)
@@ -740,7 +752,7 @@ def run(ctx, replay=None):
             key, ok, dev, mrow = "sinkhorn-rows", True, 0.0, []
             for k, (mrow_k, norms_k) in enumerate(mv):
                 mk = [from_fz(p) for p in mrow_k]
-                ok_k, dev_k, sk = sph_compare(r["out"][k], mk, [from_fz(p) for p in norms_k], item["d"], False)
+                ok_k, dev_k, sk = sph_compare(r["out"][k], mk, norms_k, item["d"], False)
                 antipodal += sk
                 ok, dev = ok and ok_k, max(dev, dev_k) if dev_k == dev_k else float("inf")
                 mrow.append(mk)
@@ -756,7 +768,7 @@ def run(ctx, replay=None):
         elif item.get("spherical"):
             key = "spherical"
             mrow = [from_fz(p) for p in mv[0]]
-            ok, dev, sk = sph_compare(r["out"], mrow, [from_fz(p) for p in mv[1]], item["d"], True)
+            ok, dev, sk = sph_compare(r["out"], mrow, mv[1], item["d"], True)
             antipodal += sk
             per[key][0] += 1
         else:
@@ -773,6 +785,7 @@ def run(ctx, replay=None):
                                       "rows_and_max_dev": {k: {"rows": v[0], "max_dev": v[1]} for k, v in per.items()},
                                       "antipodal_blocks_skipped": antipodal,
                                       "entries_accepted_on_signed_squares_only": SQRT_EXEMPT[0],
+                                      "float32_tie_blocks_skipped": F32_TIES[0],
                                       "model": "Model/K17_LOTglue.lot_pipeline_F, Model/K17_LOTspherical.lot_pipeline_sph_F / "
                                                "sinkhorn_row_F, Model/K17_ApproxW.approx_transform_F (PrimFloat) via vm_compute, "
                                                "tolerance 1e-9"}
